@@ -247,6 +247,20 @@ func genC09(e *emitter, r *rng, tier string) {
 				}
 			}
 			addFindOps(b, r, h, patString(p), true)
+			// searches that stay alive while other searches are created and run
+			if !infinite || b.handles[h].hi < 5000 {
+				b.add("mkf:%d:%s", h, patString(p))
+				b.add("mkfr:%d:%s", h, patString(p))
+			}
+		}
+		nf := 0
+		for _, st := range b.stmts {
+			if strings.HasPrefix(st, "mkf") {
+				nf++
+			}
+		}
+		for j := 0; j < 3*nf; j++ {
+			b.add("nxf:%d:%d", r.intn(max(nf, 1)), 1+r.intn(3))
 		}
 		b.emit(e, fmt.Sprintf("C09.random.alphabet%d", alphabet))
 	}
@@ -283,7 +297,7 @@ func genC15(e *emitter, r *rng, tier string) {
 		if q < b.handles[h].lo {
 			q = b.handles[h].lo + r.intn(5)
 		}
-		ln := 4 + r.intn(3)
+		ln := 6 + r.intn(3)
 		var p []int
 		for k := 0; k < ln; k++ {
 			p = append(p, genDigit(q+k))
